@@ -53,7 +53,7 @@ impl Property for C16 {
         match tier {
             Tier::Quick => Budget {
                 seconds: 25,
-                max_cases: 6_000,
+                max_cases: 12_000,
             },
             Tier::Thorough => Budget {
                 seconds: 600,
